@@ -58,3 +58,17 @@ Print Assumptions C02_get_field_any_path.
 Theorem C02_get_data_any_path : stmt_get_data_any_path_enc.
 Proof. exact get_data_any_path_enc. Qed.
 Print Assumptions C02_get_data_any_path.
+
+From Sbepp Require Import SrcTables SrcTablesProofs.
+
+(* tables regenerated from /repo's utils.hpp / sbe_schema_validator.hpp on
+   every run: a field of built-in primitive type p gets the wrapper of p, and
+   the size tables of the validator (layout) and of the generator (cursor
+   offsets) agree with the encoding width of p *)
+Theorem C02_source_wrapper_of_each_primitive : stmt_src_wrappers.
+Proof. exact src_wrappers. Qed.
+Print Assumptions C02_source_wrapper_of_each_primitive.
+
+Theorem C02_source_size_tables_agree : stmt_src_sizes.
+Proof. exact src_sizes. Qed.
+Print Assumptions C02_source_size_tables_agree.
